@@ -434,7 +434,7 @@ package bigbuff
 //@   ensures novalue : !ret1 ==> ret0 == nil
 
 //@ func (*Buffer).commit
-//@   props C01 C02 C04
+//@   props C01 C02 C03 C04
 //@   action mutex
 //@   holds W : c.mutex
 //@   requires forward : offset >= 0
